@@ -252,7 +252,17 @@ example : noShorten 7 (DB.init 100) (opsShort 0) = false := by decide
 set_option maxRecDepth 100000 in
 example : (run (DB.init 100) (opsShort 8)).now = 143 ∧
     ((run (DB.init 100) (opsShort 8)).getKey 7).holders.map (fun h => (h.expT, h.sched.visit, h.sched.long)) = [(136, 144, false)] := by decide
+
+/-- the state reached at server time 143 -/
+def s143 : DB :=
+  { keys := [{ key := 7, locked := 1,
+               holders := [{ hid := 0, cmd := U, conn := 1, depth := 1, startT := 135, expT := 136,
+                             sched := { visit := 144, long := false, seq := 7, checked := 1 } }],
+               waiters := [], waited := false }],
+    now := 143, tCheck := 144, eCheck := 144, seq := 8, leader := true,
+    ctr := { lockCount := 1, lockedCount := 1 } }
 set_option maxRecDepth 100000 in
-example : (run (DB.init 100) (opsShort 9)).now = 144 ∧ ((run (DB.init 100) (opsShort 9)).getKey 7).holders = [] := by decide
+example : run (DB.init 100) (opsShort 8) = s143 := by decide
+example : (opTick s143).2.map (fun r => (r.req, r.result)) = [(2, RESULT_EXPRIED)] ∧ (opTick s143).1.keys = [] := by decide
 
 end Slock.C06
